@@ -78,6 +78,8 @@ impl MDBShardFile {
         let full_file_name = target_directory.join(shard_file_name(&shard_hash));
 
         std::fs::rename(&temp_file_name, &full_file_name)?;
+        #[cfg(xet_verif)]
+        utils::verif::stamp_mtime(&full_file_name);
 
         Self::load_from_hash_and_path(shard_hash, &full_file_name)
     }
@@ -95,6 +97,11 @@ impl MDBShardFile {
             .duration_since(std::time::UNIX_EPOCH)
             .unwrap_or_default()
             .as_secs();
+
+        #[cfg(xet_verif)]
+        if let Some(t) = utils::verif::now_secs() {
+            out_footer.shard_key_expiry = t.saturating_add(shard_valid_for.as_secs());
+        }
 
         let mut out_footer_bytes = Vec::<u8>::with_capacity(std::mem::size_of::<MDBShardFileFooter>());
         out_footer.serialize(&mut out_footer_bytes)?;
